@@ -24,6 +24,7 @@ func checkC17(r *Report, p *Program) {
 	keyCompleteness(r, p, "R17.5")
 	checkThenAct(r, p, "R17.4")
 	noNewCrossSyncState(r, p, "R17.6")
+	locksReleased(r, p, "R17.7", 10)
 }
 
 func cacheTaint(p *Program) *engine.Taint {
